@@ -295,12 +295,11 @@ class PlayReady(DrmBase):
             version = options.version
         if la_url is None:
             la_url = options.licenseUrl
-            if la_url is not None:
-                la_url = urllib.parse.unquote_plus(la_url)
-            elif stream.playready_la_url is not None:
-                la_url = stream.playready_la_url
-            else:
-                la_url = self.la_url
+            if la_url is None:
+                if stream.playready_la_url is not None:
+                    la_url = stream.playready_la_url
+                else:
+                    la_url = self.la_url
         if locations is None:
             locations = set(DrmLocation.all())
 
